@@ -35,6 +35,9 @@ func (s *runState) opReaddir(class string) {
 		return
 	}
 	bufLen := uint32(tape.Pick(t, []int{24, 25, 30, 47, 48, 49, 64, 100, 128, 256, 1000, 4096, 23, 8}))
+	if s.hugeDir && t.Chance(1, 2) {
+		bufLen = uint32(tape.Pick(t, []int{16384, 32768, 49152, 65536}))
+	}
 	var cookie uint64
 	if f != nil && f.rdStarted {
 		switch t.Weighted(8, 2, 2, 1, 1) {
